@@ -556,6 +556,7 @@ def sbt_case(rng, name, k=0):
     cset(case, 'Economic Model', rng.choice([1, 2, 3, 3]))
     cset(case, 'Utilization Factor', _round(rng.uniform(0.5, 1.0), 3))
     cset(case, 'Inflation Rate During Construction', _round(rng.uniform(0, 0.1), 3))
+    cset(case, 'Discount Initial Year Cashflow', rng.choice(['True', 'False']))
     # cost inputs: drop the example's fixed figures first so that correlated components are exercised as well
     for fixed, adj, (lo, hi) in COST_COMPONENTS:
         cdel(case, fixed)
